@@ -49,9 +49,9 @@ func init() {
 				Old: "\t\tif t.DecrementPending() {\n\t\t\tqueue <- t\n\t\t}\n", New: "\t\tt.DecrementPending()\n\t\tqueue <- t\n"},
 			{Name: "analyzers-unsorted", File: "lintcmd/cmd.go", Rule: "R6.4", KeyPart: "sortedAnalyzers",
 				Old: "\tcs := slices.Collect(maps.Values(cmd.analyzers))\n\tsort.Slice(cs, func(i, j int) bool {\n\t\treturn cs[i].Analyzer.Name < cs[j].Analyzer.Name\n\t})\n\treturn cs\n", New: "\tcs := slices.Collect(maps.Values(cmd.analyzers))\n\treturn cs\n"},
-			{Name: "results-in-map-order", File: "lintcmd/runner/runner.go", Rule: "R6.4", KeyPart: "Run::out",
+			{Name: "results-in-map-order", File: "lintcmd/runner/runner.go", Rule: "R6.4", KeyPart: "Run::[]lintcmd/runner.Result-in-order-of",
 				Old: "\tsort.Slice(out, func(i, j int) bool {\n\t\treturn out[i].Package.ID < out[j].Package.ID\n\t})\n", New: ""},
-			{Name: "analyzers-from-map", File: "lintcmd/lint.go", Rule: "R6.4", KeyPart: "lint::as",
+			{Name: "analyzers-from-map", File: "lintcmd/lint.go", Rule: "R6.4", KeyPart: "lint::[]*golang.org/x/tools/go/analysis.Analyzer-in-order-of",
 				Old: "\tfor _, a := range l.opts.analyzers {\n\t\tas = append(as, a.Analyzer)\n\t}", New: "\tfor _, a := range l.analyzers {\n\t\tas = append(as, a.Analyzer)\n\t}"},
 			{Name: "sarif-changes-in-map-order", File: "lintcmd/sarif.go", Rule: "R6.4", KeyPart: "sarifFormatter).Format",
 				Old:  "\t\t\tfor _, path := range slices.Sorted(maps.Keys(changes)) {\n\t\t\t\tsfix.ArtifactChanges = append(sfix.ArtifactChanges, sarif.ArtifactChange{\n\t\t\t\t\tArtifactLocation: sarifArtifactLocation(path),\n\t\t\t\t\tReplacements:     changes[path],",
@@ -291,7 +291,7 @@ func runC06(c *Ctx) {
 					// allowed on actions created in this very function (the local analyzer graph)
 					local := base != nil && DerivesLocal(base, func(x ssa.Value) bool {
 						al, ok := x.(*ssa.Alloc)
-						return ok && al.Heap && al.Comment == "complit"
+						return ok && al.Heap && (al.Comment == "complit" || al.Comment == "new")
 					}) || base != nil && DerivesLocal(base, IsCallResult(runnerPkg+".newAnalyzerAction"))
 					isCtor := strings.HasPrefix(fn.Name(), "new")
 					c.Check(key+"::graph-shape-immutable-in-handlers", a.Instr.Pos(), local || isCtor, "the action graph (%s) is fixed before goroutines start; a handler must not rewire it", a.Field)
@@ -349,7 +349,8 @@ func runC06(c *Ctx) {
 			if p, ok := cc.Value.(*ssa.Parameter); ok && p.Parent() == gh {
 				return true
 			}
-			return false
+			// … or of a local closure of genericHandle that does one of these
+			return callsWriterClosure(gh, cc)
 		}
 		nw := 0
 		Instrs(gh, false, func(in ssa.Instruction) {
@@ -379,16 +380,59 @@ func runC06(c *Ctx) {
 		})
 		// DecrementPending itself: atomic add, compare with zero
 		dp := c.Func("lintcmd/runner", "(*baseAction).DecrementPending")
-		okAtomic := false
-		for _, r := range Returns(dp) {
-			if bo, ok := r.Results[0].(*ssa.BinOp); ok && bo.Op == token.EQL {
-				if k, isK := ConstInt(bo.Y); isK && k == 0 {
-					if call, ok := bo.X.(*ssa.Call); ok && IsCallTo(call, "sync/atomic.AddUint32", "sync/atomic.AddInt32", "sync/atomic.AddInt64") && AddrFrom(call.Call.Args[0], IsFieldOf("baseAction", "pending")) {
-						okAtomic = true
-					}
+		isAtomicAdd := func(v ssa.Value) bool {
+			call, ok := v.(*ssa.Call)
+			return ok && IsCallTo(call, "sync/atomic.AddUint32", "sync/atomic.AddInt32", "sync/atomic.AddInt64", "sync/atomic.AddUint64") && AddrFrom(call.Call.Args[0], IsFieldOf("baseAction", "pending"))
+		}
+		zeroEdges := IntCmpConstEdges(dp, isAtomicAdd, true, func(lo, hi int64) bool { return lo == 0 && hi == 0 })
+		nonZeroEdges := IntCmpConstEdges(dp, isAtomicAdd, true, func(lo, hi int64) bool { return lo >= 1 })
+		okAtomic, sawTrue := true, false
+		var judge func(v ssa.Value, at ssa.Instruction, depth int)
+		judge = func(v ssa.Value, at ssa.Instruction, depth int) {
+			switch x := v.(type) {
+			case *ssa.BinOp:
+				// the comparison itself: atomic.Add(&pending, ^0) == 0, in either operand order
+				a, b := x.X, x.Y
+				if _, isK := ConstInt(a); isK {
+					a, b = b, a
 				}
+				k, isK := ConstInt(b)
+				if x.Op == token.EQL && isK && k == 0 && isAtomicAdd(a) {
+					sawTrue = true
+					return
+				}
+				okAtomic = false
+			case *ssa.Const:
+				switch {
+				case isBoolConst(x, true):
+					sawTrue = true
+					if ok, _ := MustPassEdges(dp, at, zeroEdges); !ok || len(zeroEdges) == 0 {
+						okAtomic = false
+					}
+				case isBoolConst(x, false):
+					if ok, _ := MustPassEdges(dp, at, nonZeroEdges); !ok || len(nonZeroEdges) == 0 {
+						okAtomic = false
+					}
+				default:
+					okAtomic = false
+				}
+			case *ssa.Phi:
+				if depth > 3 {
+					okAtomic = false
+					return
+				}
+				for i, e := range x.Edges {
+					pred := x.Block().Preds[i]
+					judge(e, pred.Instrs[len(pred.Instrs)-1], depth+1)
+				}
+			default:
+				okAtomic = false
 			}
 		}
+		for _, r := range Returns(dp) {
+			judge(r.Results[0], r, 0)
+		}
+		okAtomic = okAtomic && sawTrue
 		c.Check(FuncKey(dp)+"::atomic-decrement-reaching-zero", dp.Pos(), okAtomic, "DecrementPending reports true exactly for the atomic decrement that makes pending zero")
 		// the semaphore is released on every path before dependents are enqueued? (not a correctness condition) — instead: exec runs only when no dependency failed
 		t, path := PathAvoiding(gh, nil, func(in ssa.Instruction) bool {
@@ -396,11 +440,13 @@ func runC06(c *Ctx) {
 			if !ok || ci.Common().IsInvoke() {
 				return false
 			}
-			p, ok := ci.Common().Value.(*ssa.Parameter)
-			return ok && p.Parent() == gh
+			if p, ok := ci.Common().Value.(*ssa.Parameter); ok && p.Parent() == gh {
+				return true
+			}
+			return callsExecClosure(gh, ci.Common())
 		}, nil, CondEdges(gh, func(cond ssa.Value) (bool, bool) {
 			call, ok := cond.(*ssa.Call)
-			return ok && call.Call.IsInvoke() && call.Call.Method.Name() == "IsFailed" && call.Call.Value == ssa.Value(gh.Params[0]), false
+			return ok && call.Call.IsInvoke() && call.Call.Method.Name() == "IsFailed" && Derives(call.Call.Value, func(v ssa.Value) bool { return v == ssa.Value(gh.Params[0]) }), false
 		}))
 		c.Check(FuncKey(gh)+"::exec-only-if-not-failed", gh.Pos(), t == nil, "the action runs only on the not-failed edge (a failed dependency marks it failed first); path: %s", PathString(gh, path))
 	})
@@ -416,7 +462,10 @@ func runC06(c *Ctx) {
 			for _, mo := range findMapOrdered(c, fn) {
 				n++
 				c.SawFunc(fn.String())
-				key := FuncKey(fn) + "::" + mo.Name
+				key := stableFuncKey(fn) + "::" + mo.Key
+				if mo.Key == "" {
+					key = stableFuncKey(fn) + "::" + mo.Name
+				}
 				kind := "order"
 				if mo.Kind == "effect" {
 					kind = "mapio"
@@ -490,11 +539,10 @@ func runC06(c *Ctx) {
 			}
 			return false
 		}
-		small := CmpEdges(pd, func(x, y ssa.Value) bool {
-			call, ok := x.(*ssa.Call)
-			k, isK := ConstInt(y)
-			return ok && isK && k <= 1 && IsCallTo(call, "builtin.len") && fromParam(call.Call.Args[0])
-		}, func(rel string, truth bool) bool { return (rel == ">" && !truth) || (rel == "<=" && truth) })
+		small := IntCmpConstEdges(pd, func(v ssa.Value) bool {
+			call, ok := v.(*ssa.Call)
+			return ok && IsCallTo(call, "builtin.len") && fromParam(call.Call.Args[0])
+		}, true, func(lo, hi int64) bool { return hi <= 1 })
 		nFmt := 0
 		Instrs(pd, false, func(x ssa.Instruction) {
 			ci, ok := x.(ssa.CallInstruction)
@@ -583,4 +631,53 @@ func runC06(c *Ctx) {
 		c.Floor("R6.6", 1)
 		unusedKeyObligations(c, c.Func("lintcmd", "(*linter).lint"), false)
 	})
+}
+
+// closuresOf returns the closures of parent that a call value may denote.
+func closuresOf(parent *ssa.Function, cc *ssa.CallCommon) []*ssa.Function {
+	var out []*ssa.Function
+	if cc.IsInvoke() {
+		return nil
+	}
+	for x := range BackSlice(cc.Value, SliceOpts{}) {
+		if mc, ok := x.(*ssa.MakeClosure); ok {
+			if f, _ := mc.Fn.(*ssa.Function); f != nil && f.Parent() == parent {
+				out = append(out, f)
+			}
+		}
+	}
+	return out
+}
+
+// callsExecClosure: the call invokes a local closure of gh that calls gh's exec parameter.
+func callsExecClosure(gh *ssa.Function, cc *ssa.CallCommon) bool {
+	for _, f := range closuresOf(gh, cc) {
+		for _, ci := range Calls(f, false) {
+			for x := range BackSlice(ci.Common().Value, SliceOpts{}) {
+				if p, ok := x.(*ssa.Parameter); ok && p.Parent() == gh {
+					if _, isFn := p.Type().Underlying().(*types.Signature); isFn {
+						return true
+					}
+				}
+			}
+		}
+	}
+	return false
+}
+
+// callsWriterClosure: the call invokes a local closure of gh that runs exec or marks the action failed.
+func callsWriterClosure(gh *ssa.Function, cc *ssa.CallCommon) bool {
+	if callsExecClosure(gh, cc) {
+		return true
+	}
+	for _, f := range closuresOf(gh, cc) {
+		for _, ci := range Calls(f, false) {
+			if ci.Common().IsInvoke() {
+				if n := ci.Common().Method.Name(); n == "MarkFailed" || n == "AddError" {
+					return true
+				}
+			}
+		}
+	}
+	return false
 }
